@@ -635,3 +635,39 @@ pub fn many_successors_spec(nstates: u32, labels: u32) -> Spec {
     calls.push(Call::Final(1 % nstates));
     Spec { init: 0, calls }
 }
+
+/// A reachable state whose explicit labels cover the whole alphabet and that ALSO declares a default successor,
+/// a state that nothing else leads to. (Grey for build(): it may reject the superfluous default; if it accepts,
+/// no character takes the default, so that state is unreachable.)
+pub fn gen_superfluous_default(rng: &mut Rng) -> Spec {
+    let (init, seen, trap) = (0u32, 1u32, 2u32);
+    let mut calls = Vec::new();
+    // cut points of the cover
+    let k = 1 + rng.usize(3);
+    let mut cuts: Vec<u32> = (0..k).map(|_| 1 + rng.below(MAXC as u64 - 1) as u32).collect();
+    cuts.sort_unstable();
+    cuts.dedup();
+    let mut lo = 0u32;
+    let mut pieces: Vec<(u32, u32)> = Vec::new();
+    for &c in &cuts {
+        pieces.push((lo, c - 1));
+        lo = c;
+    }
+    pieces.push((lo, MAXC));
+    for (i, &(a, b)) in pieces.iter().enumerate() {
+        calls.push(Call::Trans(init, a, b, if i % 2 == 1 { seen } else { init }));
+    }
+    let d = Call::Default(init, trap);
+    if rng.chance(1, 2) {
+        calls.push(d);
+    } else {
+        calls.insert(0, d);
+    }
+    calls.push(Call::Default(seen, if rng.chance(1, 2) { seen } else { init }));
+    calls.push(Call::Default(trap, trap));
+    calls.push(Call::Final(seen));
+    if rng.chance(1, 3) {
+        calls.push(Call::Final(trap));
+    }
+    Spec { init, calls }
+}
